@@ -21,6 +21,7 @@ Fixpoint expr_ok (e : expr) : bool :=
   match e with
   | EConst _ | EVar _ => true
   | EList items => forallb expr_ok items
+  | EMap pairs => forallb (fun p => expr_ok (fst p) && expr_ok (snd p)) pairs
   | ENeg a | ENot a => expr_ok a
   | EBin _ a b | EAnd a b | EOr a b | EItem a b => expr_ok a && expr_ok b
   | ECmp a rest => expr_ok a && forallb (fun p => expr_ok (snd p)) rest
@@ -58,21 +59,26 @@ Definition macro_ok (mc : macro) : bool :=
   forallb (fun p => expr_ok (snd p)) (m_defaults mc) && forallb stmt_ok (m_body mc).
 
 (* the invariant on values: a string that bypasses escaping has no metacharacter; macros that can be
-   called come from the fragment *)
+   called come from the fragment.  A map is never itself a safe string (printing it escapes its whole
+   printed text), but its keys and values keep their safe flags when they are looked up or iterated
+   over - so every key and every value of a map has to be good, at any nesting depth. *)
 Fixpoint good_value (v : value) : bool :=
   match v with
   | VStr true s => clean s
   | VList l => forallb good_value l
+  | VMap kvs => forallb (fun p => good_value (fst p) && good_value (snd p)) kvs
   | VMacro mc _ => macro_ok mc
   | _ => true
   end.
 
 Definition good_binds (l : list (name * value)) : bool := forallb (fun p => good_value (snd p)) l.
 
-(* plain data, as a render context built from JSON has it: no safe strings, no macros *)
+(* plain data, as a render context built from JSON has it: no safe strings, no macros; lists and
+   maps of plain data, nested at will *)
 Fixpoint data_value (v : value) : bool :=
   match v with
   | VUndef | VNone | VBool _ | VInt _ | VStr false _ => true
   | VList l => forallb data_value l
+  | VMap kvs => forallb (fun p => data_value (fst p) && data_value (snd p)) kvs
   | _ => false
   end.
